@@ -241,6 +241,9 @@ def originLines (seq : Str) (blockLen perLine : Nat) : List Str :=
   let lineLen := (blockLen + 1) * (perLine + 1)
   originLinesAux blockLen lineLen 0 (chunks (lineLen - 1) seq)
 
+/-- the header line of the feature table -/
+def featuresHeader : Str := c!"FEATURES             Location/Qualifiers"
+
 /-- the lines of one record, `//` included -/
 def layout (r : GbRec) (ℓ : RecLayout) : List Str :=
   [locusLine r.locus r.seq.length ℓ]
@@ -252,7 +255,7 @@ def layout (r : GbRec) (ℓ : RecLayout) : List Str :=
   ++ block c!"  ORGANISM" r.organism ℓ.organism
   ++ refsLines 0 r.refs ℓ.refs
   ++ extrasLines r.extras ℓ.extras
-  ++ [c!"FEATURES             Location/Qualifiers"]
+  ++ [featuresHeader]
   ++ featsLines r.features ℓ.feats
   ++ [if ℓ.originTrail then c!"ORIGIN      " else c!"ORIGIN"]
   ++ originLines r.seq ℓ.blockLen ℓ.perLine
